@@ -194,7 +194,12 @@ def roland_sweep(ctx, rep: Report, cases, rng, full: bool):
                             rep.findings.append(Finding(klass, dict(detail, sibling=smp.name, listing=names[:8])))
                             break
                         if files.get(path) != base_files.get(path):
-                            rep.findings.append(Finding("roland-damaged-record-changes-sibling-audio", dict(detail, sibling=smp.name)))
+                            # two items of one name now: the de-duplication hands `name` to the first of them and
+                            # `name (2)` to the other (the Roland face of KF-C14-name-collision)
+                            raws = [bytes(dmg[GR.DIR["samp"] + 32 * k: GR.DIR["samp"] + 32 * k + 16]), bytes(dmg[GR.PAR["samp"][0] + 48 * k: GR.PAR["samp"][0] + 48 * k + 16])]
+                            collide = pos < 16 and any(r.rstrip(b"\x00").decode("latin-1").strip() == smp.name for r in raws)
+                            klass = "roland-damaged-name-collides-with-sibling" if collide else "roland-damaged-record-changes-sibling-audio"
+                            rep.findings.append(Finding(klass, dict(detail, sibling=smp.name)))
                             break
 
 
